@@ -119,3 +119,37 @@ Example unixnano_comparator_refuted :
   time_lt (9223372036, 854775807%N) (9223372036, 854775808%N) = true /\
   unixnano_lt (9223372036, 854775808%N) (0, 0%N) = true.
 Proof. vm_compute. repeat split; reflexivity. Qed.
+
+(* ---- sort specifications longer than boltz.SortMax (harness c19long.go) -------------------------------- *)
+(* four objects that tie on name, age, score (and, but for the last one, ok); `at` runs against the id order.
+   Six fields with a repeated one: the sixth decides.  Seven fields with `id desc` as the sixth: the seventh is
+   dead.  The bolt model agrees: SortMax only enters the choice of the scanner ([new_scanner]), which looks at
+   the first field. *)
+Definition long_rows : list row := [
+  mk 97  (CStr (s [97])) (CInt 7) (CFloat f_1_5) (CBool true) (CTime 100 1);
+  mk 98  (CStr (s [97])) (CInt 7) (CFloat f_1_5) (CBool true) (CTime 100 3);
+  mk 99  (CStr (s [97])) (CInt 7) (CFloat f_1_5) (CBool true) (CTime 100 2);
+  mk 100 (CStr (s [97])) (CInt 7) (CFloat f_1_5) CNull        (CTime 100 9)].
+Definition long_objs : list row := [nth 2 long_rows (mk 0 CNull CNull CNull CNull CNull); nth 0 long_rows (mk 0 CNull CNull CNull CNull CNull);
+                                    nth 3 long_rows (mk 0 CNull CNull CNull CNull CNull); nth 1 long_rows (mk 0 CNull CNull CNull CNull CNull)].
+Definition long_spec : list sort_field := [by_name true; by_age false; by_score true; by_ok true; by_name false; by_at false].
+Definition long_spec_id : list sort_field := [by_name true; by_age false; by_score true; by_ok true; by_name false; by_id false; by_at true].
+
+Example ex_long_sort :
+  length long_spec = 6%nat /\ length long_spec_id = 7%nat /\
+  objectz_query FTrue long_spec (pg None None) long_objs = (map s [[100]; [98]; [99]; [97]], 4) /\
+  objectz_query FTrue long_spec (pg (Some 1) (Some 2)) long_objs = (map s [[98]; [99]], 4) /\
+  objectz_query FTrue long_spec_id (pg None None) long_objs = (map s [[100]; [99]; [98]; [97]], 4) /\
+  objectz_query FTrue long_spec (pg None None) long_objs = boltz_query FTrue long_spec (pg None None) long_rows /\
+  objectz_query FTrue long_spec_id (pg (Some 2) None) long_objs = boltz_query FTrue long_spec_id (pg (Some 2) None) long_rows /\
+  new_scanner long_spec = Sorting /\ new_scanner (by_id false :: long_spec) = UniqueReverse.
+Proof. vm_compute. repeat split; reflexivity. Qed.
+
+(* why the correspondence run holds tie blocks under specifications of more than five fields: a comparator built
+   from the first [sort_max] fields only (the cut NewScanner applies to choose the scanner) falls back to the id
+   order among the first three objects - another order and another page *)
+Example sort_cut_to_sort_max_refuted :
+  objectz_query FTrue (firstn sort_max long_spec) (pg None None) long_objs = (map s [[100]; [97]; [98]; [99]], 4) /\
+  objectz_query FTrue (firstn sort_max long_spec) (pg None None) long_objs <> objectz_query FTrue long_spec (pg None None) long_objs /\
+  objectz_query FTrue (firstn sort_max long_spec) (pg (Some 1) (Some 1)) long_objs <> objectz_query FTrue long_spec (pg (Some 1) (Some 1)) long_objs.
+Proof. vm_compute. repeat split; try reflexivity; discriminate. Qed.
